@@ -827,9 +827,12 @@ func (sp SynthSpec) synthWindowEdge(r *Rng) (stream []byte, data []byte, strict 
 	w := &bitW{}
 	strict = true
 	var out []byte
-	target := 65536*(1+r.Intn(2)) - r.Range(0, 7)
-	if sp.Size > 0 && r.Intn(4) == 0 {
-		target = 65536 + 32768*r.Intn(3) - r.Range(0, 7)
+	// the window fills inside the leading literals of the first dynamic block (a packed
+	// "literal, literal, length" entry then straddles the edge) in most streams
+	lead := r.Range(1, 2)
+	target := 65536 + 32768*r.Intn(3) - r.Range(0, lead)
+	if r.Intn(4) == 0 {
+		target = 65536*(1+r.Intn(2)) - r.Range(0, 7)
 	}
 	for len(out) < target {
 		n := target - len(out)
@@ -854,8 +857,16 @@ func (sp SynthSpec) synthWindowEdge(r *Rng) (stream []byte, data []byte, strict 
 		usedL := make([]bool, 286)
 		usedD := make([]bool, 30)
 		usedL[256] = true
-		for k := r.Range(4, 40); k > 0; k-- {
-			if r.Intn(3) == 0 {
+		first := len(toks) == 0 && len(shape) > 0 && shape[len(shape)-1] == 'S'
+		for k, k0 := r.Range(4, 40), 0; k > 0; k, k0 = k-1, k0+1 {
+			isMatch := r.Intn(3) == 0
+			if first && k0 < lead {
+				isMatch = false
+			}
+			if first && k0 == lead {
+				isMatch = true
+			}
+			if isMatch {
 				t := tok{Len: r.Range(3, 6), Dist: r.Range(1, 4)}
 				toks = append(toks, t)
 				for i := 0; i < t.Len; i++ {
